@@ -54,6 +54,33 @@ type result struct {
 	crashed bool
 	stderr  string
 	timeout bool
+	races   []string
+	raceRun bool
+}
+
+// raceReports extracts the race detector reports that involve repository code.
+func raceReports(s string) []string {
+	var out []string
+	for _, blk := range strings.Split(s, "==================") {
+		if !strings.Contains(blk, "WARNING: DATA RACE") || !strings.Contains(blk, "/repo/") {
+			continue
+		}
+		// identify the report by its repository frames
+		var sites []string
+		for _, l := range strings.Split(blk, "\n") {
+			l = strings.TrimSpace(l)
+			if strings.HasPrefix(l, "/repo/") {
+				if i := strings.IndexByte(l, ' '); i > 0 {
+					l = l[:i]
+				}
+				if len(sites) < 4 && (len(sites) == 0 || sites[len(sites)-1] != l) {
+					sites = append(sites, l)
+				}
+			}
+		}
+		out = append(out, "data race involving "+strings.Join(sites, " , ")+"\n"+tail(blk, 2500))
+	}
+	return out
 }
 
 type finding struct {
@@ -86,6 +113,7 @@ var props = map[string]propCfg{
 	"C05": {Focus: "C05", Arms: []string{"clean"}, Rare: []string{"exhaust"}, RareEvery: 2500, Probes: []string{"c05_reply_checked", "c05_wireid_checked", "c05_exhaust_completed", "c05_exhaust_rollover_seen"}},
 	"C06": {Focus: "C06", Arms: []string{"clean"}, Probes: []string{"c06_query_checked", "c06_reply_checked"}},
 	"C14": {Focus: "C14", Arms: []string{"stale", "faults"}, Probes: []string{"c14_deadline_checked", "c14_liveness_checked", "c14_waiter_on_dead_conn"}},
+	"C20": {Focus: "C20", Arms: []string{"router", "xport"}, Race: true, Probes: []string{"content_checked", "c06_reply_checked"}},
 	"C15": {Focus: "C15", Arms: []string{"unit", "e2e"}, Probes: []string{"c15_decisions_compared", "c15_e2e_refused", "c15_e2e_admitted"}},
 	"C16": {Focus: "C16", Arms: []string{"clean"}, Probes: []string{"c16_tc_seen", "c16_tcp_outcome_returned", "c16_no_tc"}},
 	"C07": {Focus: "C07", Arms: []string{"ample", "ample", "tiny"}, Probes: []string{"cache_hit", "c07_group_checked", "c07_compared_with_first_relay", "c07_hit_expected"}},
@@ -109,6 +137,7 @@ func mix(x uint64) uint64 {
 
 var (
 	binPath   string
+	raceBin   string
 	scratch   string
 	childWall = 120 * time.Second
 )
@@ -119,7 +148,13 @@ func childEnv(extra ...string) []string {
 }
 
 func runChild(env []string, outFile string) *result {
-	cmd := exec.Command(binPath, "-test.run", "^TestSim$", "-test.timeout", "0")
+	bin := binPath
+	for _, e := range env {
+		if e == "SIM_RACE=1" {
+			bin = raceBin
+		}
+	}
+	cmd := exec.Command(bin, "-test.run", "^TestSim$", "-test.timeout", "0")
 	cmd.Env = env
 	var stderr bytes.Buffer
 	cmd.Stderr = &stderr
@@ -143,7 +178,10 @@ func runChild(env []string, outFile string) *result {
 	r := &result{}
 	b, rerr := os.ReadFile(outFile)
 	os.Remove(outFile)
-	if rerr == nil && json.Unmarshal(b, r) == nil && !timedOut && err == nil {
+	if strings.Contains(stderr.String(), "WARNING: DATA RACE") {
+		r.races = raceReports(stderr.String())
+	}
+	if rerr == nil && json.Unmarshal(b, r) == nil && !timedOut && (err == nil || len(r.races) > 0) {
 		return r
 	}
 	r.crashed = true
@@ -161,14 +199,34 @@ func tail(s string, n int) string {
 
 func runSeed(seed uint64, focus, arm string, keepLog int, id string) *result {
 	out := filepath.Join(scratch, "res-"+id+".json")
-	r := runChild(childEnv("SIM_MODE=genrun", "SIM_SEED="+strconv.FormatUint(seed, 10), "SIM_FOCUS="+focus, "SIM_ARM="+arm, "SIM_OUT="+out, "SIM_LOG="+strconv.Itoa(keepLog)), out)
+	extra := []string{"SIM_MODE=genrun", "SIM_SEED=" + strconv.FormatUint(seed, 10), "SIM_FOCUS=" + focus, "SIM_ARM=" + arm, "SIM_OUT=" + out, "SIM_LOG=" + strconv.Itoa(keepLog)}
+	if useRace {
+		extra = append(extra, "SIM_RACE=1", "GORACE=halt_on_error=0 exitcode=0")
+	}
+	r := runChild(childEnv(extra...), out)
 	r.Seed, r.Focus, r.Arm = seed, focus, arm
 	return r
 }
 
 func runPlanFile(path string, keepLog int, id string) *result {
 	out := filepath.Join(scratch, "res-"+id+".json")
-	return runChild(childEnv("SIM_MODE=run", "SIM_PLAN="+path, "SIM_OUT="+out, "SIM_LOG="+strconv.Itoa(keepLog)), out)
+	extra := []string{"SIM_MODE=run", "SIM_PLAN=" + path, "SIM_OUT=" + out, "SIM_LOG=" + strconv.Itoa(keepLog)}
+	if useRace {
+		extra = append(extra, "SIM_RACE=1", "GORACE=halt_on_error=0 exitcode=0")
+	}
+	return runChild(childEnv(extra...), out)
+}
+
+var useRace bool
+
+// runSeedRace runs one seed under the race detector build.
+func runSeedRace(seed uint64, focus, arm, id string) *result {
+	out := filepath.Join(scratch, "res-"+id+".json")
+	env := childEnv("SIM_MODE=genrun", "SIM_SEED="+strconv.FormatUint(seed, 10), "SIM_FOCUS="+focus, "SIM_ARM="+arm, "SIM_OUT="+out, "SIM_LOG=0", "SIM_RACE=1", "GORACE=halt_on_error=0 exitcode=0")
+	r := runChild(env, out)
+	r.Seed, r.Focus, r.Arm = seed, focus, arm
+	r.raceRun = true
+	return r
 }
 
 func genPlan(seed uint64, focus, arm string) (*plan.Plan, error) {
@@ -252,6 +310,8 @@ func main() {
 	tier := flag.String("tier", "quick", "quick | thorough")
 	bin := flag.String("bin", "/verif/.build/sim.test", "simulator binary")
 	replay := flag.String("replay", "", "replay a plan file")
+	raceBinFlag := flag.String("racebin", "/verif/.build/sim.race.test", "simulator binary built with -race")
+	raceShare := flag.Int("raceshare", 3, "for properties with a race arm: every n-th run uses the race build")
 	seedFlag := flag.Uint64("seed", 0, "campaign seed (default VERIF_SEED or 1)")
 	workers := flag.Int("workers", 15, "parallel simulator processes")
 	budget := flag.Int("budget", 0, "seconds (0 = tier default)")
@@ -262,6 +322,7 @@ func main() {
 	detTest := flag.Int("determinism", 0, "run N seeds twice and compare event-log hashes")
 	flag.Parse()
 	binPath = *bin
+	raceBin = *raceBinFlag
 	var err error
 	scratch, err = os.MkdirTemp("", "campaign")
 	if err != nil {
@@ -314,6 +375,7 @@ func main() {
 		results   []*result
 		failures  []failure
 		others    = map[string]int{}
+		otherEx   = map[string]string{}
 		undecided []string
 		next      int
 	)
@@ -339,9 +401,21 @@ func main() {
 						arm = cfg.Rare[k]
 					}
 				}
-				r := runSeed(rs, cfg.Focus, arm, 0, fmt.Sprintf("w%d", w))
+				var r *result
+				if cfg.Race && *raceShare > 0 && i%*raceShare == 0 {
+					r = runSeedRace(rs, cfg.Focus, arm, fmt.Sprintf("w%d", w))
+				} else {
+					r = runSeed(rs, cfg.Focus, arm, 0, fmt.Sprintf("w%d", w))
+				}
 				mu.Lock()
 				results = append(results, r)
+				for _, rr := range r.races {
+					first := rr
+					if i := strings.IndexByte(rr, '\n'); i > 0 {
+						first = rr[:i]
+					}
+					failures = append(failures, failure{r, violation{Property: *prop, Clause: "data-race", Detail: first + "\n" + rr}})
+				}
 				if r.crashed {
 					if v := crashViolation(*prop, r); v != nil {
 						failures = append(failures, failure{r, *v})
@@ -353,7 +427,11 @@ func main() {
 					if v.Property == *prop {
 						failures = append(failures, failure{r, v})
 					} else {
-						others[v.Property+"/"+v.Clause]++
+						k := v.Property + "/" + v.Clause
+						others[k]++
+						if _, ok := otherEx[k]; !ok {
+							otherEx[k] = fmt.Sprintf("seed %d arm %s: %s", r.Seed, r.Arm, v.Detail)
+						}
 					}
 				}
 				mu.Unlock()
@@ -387,6 +465,9 @@ func main() {
 		exit = 1
 	}
 	writeEvidence(*evidenceDir, *prop, *tier, seed, cfg, results, wall, reported, knownSeen, others, undecided)
+	for _, k := range sortedKeys(otherEx) {
+		fmt.Printf("note: violation of another property seen during this campaign: %s (%d) e.g. %s\n", k, others[k], tail(otherEx[k], 400))
+	}
 	good := 0
 	for _, r := range results {
 		if !r.crashed {
@@ -403,6 +484,15 @@ func main() {
 		os.Exit(2)
 	}
 	os.Exit(exit)
+}
+
+func sortedKeys(m map[string]string) []string {
+	ks := make([]string, 0, len(m))
+	for k := range m {
+		ks = append(ks, k)
+	}
+	sort.Strings(ks)
+	return ks
 }
 
 func isFlagSet(name string) bool {
@@ -429,7 +519,14 @@ func report(prop string, cfg propCfg, f failure, dir string, findings []finding)
 		b, _ := json.Marshal(pl)
 		os.WriteFile(fp, b, 0o644)
 		defer os.Remove(fp)
+		if f.v.Clause == "data-race" {
+			useRace = true
+			defer func() { useRace = false }()
+		}
 		r := runPlanFile(fp, 0, id)
+		if f.v.Clause == "data-race" {
+			return len(r.races) > 0
+		}
 		if r.crashed {
 			v := crashViolation(prop, r)
 			return v != nil && f.v.Clause == "process-crash"
@@ -566,7 +663,19 @@ func clone(p *plan.Plan) *plan.Plan {
 }
 
 func doReplay(prop, path string, findings []finding) int {
+	if b, err := os.ReadFile(path); err == nil && strings.Contains(string(b), "/data-race:") {
+		useRace = true
+	}
 	r := runPlanFile(path, 0, "replay")
+	for _, rr := range r.races {
+		v := violation{Property: prop, Clause: "data-race", Detail: rr}
+		if kf := matchKnown(findings, v); kf != nil {
+			fmt.Printf("KNOWN-FINDING: property=%s %s\n", prop, kf.What)
+			continue
+		}
+		fmt.Printf("VIOLATION property=%s replay=%s\n  clause=data-race %s\n", prop, path, strings.SplitN(rr, "\n", 2)[0])
+		return 1
+	}
 	if r.crashed {
 		if v := crashViolation(prop, r); v != nil {
 			fmt.Printf("VIOLATION property=%s replay=%s\n  %s\n", prop, path, v.Detail)
